@@ -4,7 +4,6 @@ import (
 	"github.com/pingcap/kvproto/pkg/metapb"
 	v "github.com/tikv/pd/pkg/zzvrf"
 	"github.com/tikv/pd/server/core"
-	"github.com/tikv/pd/server/schedule/operator"
 	"github.com/tikv/pd/server/schedule/placement"
 )
 
